@@ -35,7 +35,7 @@ func (b *embeddedBackend) Get(key []byte) (*redisValue, error) {
 	if kv.IsDeletedOrExpired(entry.Meta, entry.ExpiresAt) {
 		return &redisValue{Found: false}, nil
 	}
-	val := append([]byte(nil), entry.Value...)
+	val := append([]byte{}, entry.Value...) // non-nil even when empty: "" is a value, not a miss
 	return &redisValue{
 		Value:     val,
 		ExpiresAt: entry.ExpiresAt,
@@ -147,7 +147,7 @@ func (b *embeddedBackend) MGet(keys [][]byte) ([]*redisValue, error) {
 					out[i] = &redisValue{Found: false}
 					continue
 				}
-				valCopy := append([]byte(nil), entry.Value...)
+				valCopy := append([]byte{}, entry.Value...) // non-nil even when empty
 				out[i] = &redisValue{
 					Value:     valCopy,
 					ExpiresAt: entry.ExpiresAt,
